@@ -7,15 +7,54 @@ child process: every supported dtype, shapes including 0-d and empty, contiguous
 strided / broadcast views, ordinary and odd entry names, special bit patterns; then the written bytes
 are corrupted (bit flips, truncation, appended / random bytes, length fields, textual header edits
 with huge or inconsistent shapes, dtypes and offsets, zip signatures) and read again.
-Trace_Serialize.tla follows the machine event by event and judges every read (S1, S2)."""
+
+Untrusted header numbers (spec -> impl): MC_SerializeHdr.tla generates, for every item size 1/2/4/8,
+syntactically valid headers whose shape dims sit just below / at / above every boundary of the
+readers' arithmetic (element count and byte count against 2^32, 2^63, 2^64/item size, 2^64: one
+huge dim, two dims whose product crosses, a zero dim next to huge dims, many dims, dims beyond 64
+bits) for .npy, .npz members and .safetensors, plus the safetensors header-length field and
+data_offsets at their boundaries (begin > end, end beyond the file, 2^64-1, 8 + length wrapping);
+the payload matches the WRAPPED byte count, so wrapping arithmetic finds what it expects.  The
+harness builds each file and reads it with the real readers; Trace_Serialize.tla decides with exact
+Word-limb arithmetic (H1-H4): never a panic, and a value only if byte count = element count x item
+size fits in 64 bits and is covered by the payload / offsets, with the header's shape and dtype.
+
+Both corpora run through TWO builds of the harness: the `release` profile (what users ship:
+overflow wraps) and the `checked` profile (overflow checks and debug assertions, i.e. the panics a
+debug build raises); the profile is part of every signature.
+Trace_Serialize.tla follows the machine event by event and judges every read (S1, S2, H1-H4)."""
 import json
 import os
+import re
 import threading
 import time
 
 import vlib
 
 SPEC_T, CFG_T = "misc/Trace_Serialize", "misc/Trace_Serialize.cfg"
+
+
+def mc_generate(ctx, spec, cfg, outfile, workers=4, timeout=1500, label=None):
+    """One TLC run that both model-checks the invariants of `spec` and emits REPLAY vectors."""
+    rc, out, dt = ctx._tlc(spec, cfg, workers, timeout, heap="8g")
+    ok = rc == 0 and "Model checking completed. No error has been found." in out
+    n = 0
+    pat = re.compile(r'<<"REPLAY", %s>>' % vlib._STR)
+    with open(outfile, "w") as f:
+        for m in pat.finditer(out):
+            f.write(vlib.tla_unescape(m.group(1)).replace("\n", " ") + "\n")
+            n += 1
+    gen, distinct = ctx._stats(out)
+    ctx.cov["mc_runs"].append({"spec": spec, "cfg": cfg, "role": "model checking + generator", "label": label,
+                               "behaviours": n, "states_generated": gen, "distinct_states": distinct,
+                               "ok": ok, "wall_s": round(dt, 1)})
+    ctx.cov["states"] += distinct
+    ctx.cov["transitions"] += gen
+    ctx.log("TLC %s/%s: %d distinct states, %d vectors, ok=%s, %.1fs" % (spec, os.path.basename(cfg), distinct, n, ok, dt))
+    if not ok or n == 0:
+        print(out[-5000:])
+        raise vlib.ToolError("TLC run of %s with %s did not complete cleanly (rc=%s)" % (spec, cfg, rc))
+    return n
 
 
 def split_trace(path, nparts, case_ev):
@@ -72,71 +111,137 @@ def validate_parallel(ctx, traces, timeout=3000):
     return list(merged.values()), stats
 
 
+PROFILES = ("release", "checked")
+
+
 def run(ctx):
     ctx.level = "exploration"   # the conformance side samples the input space (see manifest level_note)
-    ctx.build(["vh-misc"])
+    for prof in PROFILES:
+        ctx.build(["vh-misc"], profile=prof)
     if ctx.replay:
         return replay(ctx)
     q = ctx.quick
-    ctx.tlc_mc("misc/MC_Serialize", "misc/MC_Serialize.cfg", workers=4, timeout=600)
-    trace = ctx.path("serialize.ndjson")
-    ctx.harness("vh-misc", ["serialize", "--cases", 15000 if q else 90000, "--corrupt", 8 if q else 10, "--out", trace],
-                timeout=3000)
+    hdrs = ctx.path("headers.jsonl")
+    gen = {}
+
+    def model_side():   # runs beside the harness: the two TLC model-checking / generation runs
+        try:
+            ctx.tlc_mc("misc/MC_Serialize", "misc/MC_Serialize.cfg", workers=2, timeout=900)
+            gen["nh"] = mc_generate(ctx, "misc/MC_SerializeHdr", "misc/MC_SerializeHdr.cfg", hdrs, workers=4,
+                                    label="boundary family of untrusted header numbers")
+        except BaseException as ex:
+            gen["err"] = ex
+
+    th = threading.Thread(target=model_side)
+    th.start()
+    traces, htraces = [], []
+    for prof in PROFILES:
+        t = ctx.path("serialize_%s.ndjson" % prof)
+        ctx.harness("vh-misc", ["serialize", "--cases", 3000 if q else 45000, "--corrupt", 8 if q else 10, "--out", t],
+                    timeout=3000, profile=prof)
+        traces.append(t)
+    parts = []
+    for t in traces:
+        parts += split_trace(t, 1 if q else 3, "scase")
+    bad, stats = validate_parallel(ctx, parts)
+    th.join()
+    if "err" in gen:
+        raise gen["err"]
+    for prof in PROFILES:
+        ht = ctx.path("headers_%s.ndjson" % prof)
+        ctx.harness("vh-misc", ["serialize-hdr", "--headers", hdrs, "--out", ht], timeout=3000, profile=prof)
+        htraces.append(ht)
     if not q:
-        selftest(ctx, trace)
-    bad, stats = validate_parallel(ctx, split_trace(trace, 1 if q else 6, "scase"))
-    finish(ctx, trace, bad, stats)
+        selftest(ctx, traces[0], htraces[0])
+    bad2, stats2 = validate_parallel(ctx, htraces)
+    for k, v in stats2.items():
+        stats[k] = stats.get(k, 0) + v
+    finish(ctx, traces, htraces, bad + bad2, stats, gen["nh"])
 
 
-def finish(ctx, trace, bad, stats):
-    # evaluations = reads judged; distinct non-trivial = distinct (format, written entries, corruption) read situations
-    # whose file holds at least one element or is corrupted
+def finish(ctx, traces, htraces, bad, stats, nh):
+    # evaluations = reads judged; distinct non-trivial = distinct (profile, format, written entries, corruption) read
+    # situations whose file holds at least one element or is corrupted, plus distinct crafted headers per profile
     seen, reads, nt = set(), 0, 0
     samples = []
-    fmt, written, corrupt = None, None, ""
-    with open(trace) as f:
-        for line in f:
-            r = json.loads(line)
-            ev = r["ev"]
-            if ev == "scase":
-                fmt, written, corrupt = r["fmt"], None, ""
-            elif ev == "swrite":
-                written = r["entries"]
-            elif ev == "scorrupt":
-                corrupt = corrupt + "|" + r["what"]
-            elif ev == "sread" and written is not None:
-                reads += 1
-                key = json.dumps([fmt, written, corrupt, r["how"], r["name"]], sort_keys=True)
-                if key not in seen:
-                    seen.add(key)
-                    if corrupt or any(e["tensor"]["elems"] for e in written):
+    for trace in traces:
+        fmt, written, corrupt, prof = None, None, "", ""
+        with open(trace) as f:
+            for line in f:
+                r = json.loads(line)
+                ev = r["ev"]
+                if ev == "scase":
+                    fmt, written, corrupt, prof = r["fmt"], None, "", r["profile"]
+                elif ev == "swrite":
+                    written = r["entries"]
+                elif ev == "scorrupt":
+                    corrupt = corrupt + "|" + r["what"]
+                elif ev == "sread" and written is not None:
+                    reads += 1
+                    key = json.dumps([prof, fmt, written, corrupt, r["how"], r["name"]], sort_keys=True)
+                    if key not in seen:
+                        seen.add(key)
+                        if corrupt or any(e["tensor"]["elems"] for e in written):
+                            nt += 1
+                            if len(samples) < 2 and (len(samples) == 0) == (corrupt == ""):
+                                samples.append({"profile": prof, "fmt": fmt, "written": written, "corruption": corrupt,
+                                                "read": r["how"], "outcome": r["outcome"]})
+    hsample = None
+    for trace in htraces:
+        case = None
+        with open(trace) as f:
+            for line in f:
+                r = json.loads(line)
+                if r["ev"] == "hcase":
+                    case = r
+                elif r["ev"] == "hret" and case is not None:
+                    reads += 1
+                    key = json.dumps([case["profile"], case["fmt"], case["how"], case["dtype"], case["dims"], case["avail"],
+                                      case["hlen"], case["begin"], case["end"]])
+                    if key not in seen:
+                        seen.add(key)
                         nt += 1
-                        if len(samples) < 3 and (len(samples) == 0) == (corrupt == ""):
-                            samples.append({"fmt": fmt, "written": written, "corruption": corrupt, "read": r["how"],
-                                            "outcome": r["outcome"]})
+                        if hsample is None and len(case["dims"]) == 2 and r["outcome"] == "error":
+                            hsample = {"profile": case["profile"], "fmt": case["fmt"], "dtype": case["dtype"],
+                                       "dims_as_limbs": case["dims"], "payload_bytes_as_limbs": case["avail"],
+                                       "outcome": r["outcome"], "msg": r["msg"]}
+                    case = None
+    if hsample:
+        samples.append(hsample)
     ctx.cov["evaluations"] = reads
     ctx.cov["distinct_nontrivial"] = nt
-    ctx.cov["traces_validated_against_impl"] = stats.get("cases", 0)
+    ctx.cov["traces_validated_against_impl"] = stats.get("cases", 0) + stats.get("crafted_header_reads", 0)
+    ctx.cov["crafted_headers_generated_by_tlc"] = nh
+    ctx.cov["profiles"] = list(PROFILES)
     ctx.cov["spec_stats"] = stats
     ctx.add_samples(samples)
+    if htraces and not ctx.replay and stats.get("crafted_header_values", 0) == 0:
+        # machinery sanity: the crafted files with small consistent headers must be readable, otherwise the family
+        # would only exercise the parsers' syntax errors
+        raise vlib.ToolError("no crafted header was read successfully: the crafted files are not well-formed")
     if stats.get("keys_changed", 0):
         ctx.drift("%d intact archive reads returned the written tensors under keys other than the expected ones "
                   "(names are not part of the statement)" % stats["keys_changed"])
     if stats.get("write_errors", 0):
         ctx.cov["notes"].append("%d writes returned an error (not a violation: nothing was written)" % stats["write_errors"])
-    ctx.judge(bad, "vh-misc serialize", SPEC_T, CFG_T, case_lookup=lambda rec: {"idx": rec.get("idx")})
+    ctx.judge(bad, "vh-misc serialize", SPEC_T, CFG_T,
+              case_lookup=lambda rec: rec.get("case") or {"idx": rec.get("idx"), "profile": rec.get("profile")})
     ctx.finish(
-        rule="case i = (format i mod 3, dtype/shape/name swept with i, seeded layout, elements and corruptions); every read "
-             "(whole file and per entry; intact, then after each of 8-10 corruptions) is one evaluation; distinct by "
-             "(format, written entries, corruption history, read kind); non-trivial = corrupted file or at least one element",
+        rule="(1) case i = (format i mod 3, dtype/shape/name swept with i, seeded layout, elements and corruptions); every read "
+             "(whole file and per entry; intact, then after each of 8-10 corruptions) is one evaluation; (2) every header of "
+             "the TLC-generated boundary family (format, item size, shape dims, payload, header length, data offsets) is one "
+             "read; both run under the release and the checked build profile. distinct by (profile, format, written entries "
+             "or header numbers, corruption history, read kind); non-trivial = corrupted file, crafted header, or at least "
+             "one element",
         assumptions=["element equality is equality of bit patterns (NaN payloads, -0.0 preserved)",
                      "a read that does not return within 5 s (15 s when re-run alone) is a hang",
+                     "the checked profile (release + overflow-checks + debug-assertions) stands for debug builds",
                      "no address-space limit is imposed: huge allocations requested by corrupt headers are only seen if "
                      "they make the reader fail or stall"],
         exhaustive=False)
 
 
-def selftest(ctx, trace):
+def selftest(ctx, trace, htrace):
     """Binding self-test: corrupt recorded fields of intact reads; Trace_Serialize must flag each."""
     recs = []
     with open(trace) as f:
@@ -171,26 +276,58 @@ def selftest(ctx, trace):
             i = j
         else:
             i += 1
-    if len(want) < 3:
+    # crafted headers: turn an error on an overflowing header into a value; change the shape of a returned value
+    hc = None
+    with open(htrace) as f:
+        for line in f:
+            r = json.loads(line)
+            if r["ev"] == "hcase":
+                hc = r
+            elif r["ev"] == "hret" and hc is not None:
+                if "hv" not in want and r["outcome"] == "error" and any(len(d) >= 5 for d in hc["dims"]):
+                    r2 = dict(r, outcome="value", has_value=True, dtype=hc["dtype"], shape=hc["dims"], nelem=[])
+                    out += [hc, r2]; want.add("hv")
+                elif "hs" not in want and r["outcome"] == "value" and len(hc["dims"]) == 2:
+                    r2 = dict(r, shape=[hc["dims"][1], hc["dims"][0]])
+                    out += [hc, r2]; want.add("hs")
+                hc = None
+            if {"hv", "hs"} <= want:
+                break
+    if len(want) < 5:
         raise vlib.ToolError("self-test could not find records to corrupt")
     st = ctx.path("selftest.ndjson")
     with open(st, "w") as f:
         f.write("\n".join(json.dumps(x) for x in out) + "\n")
     res = ctx.tlc_trace(SPEC_T, CFG_T, st)
     got = {b["sig"]["pred"] for b in res["bad"]}
-    expect = {"read_back_differs", "read_panics", "read_back_fails"}
-    ctx.cov["binding_self_test"] = {"corrupted_cases": 3, "expected": sorted(expect), "flagged": sorted(got)}
+    expect = {"read_back_differs", "read_panics", "read_back_fails", "value_from_inconsistent_header", "value_differs_from_header"}
+    ctx.cov["binding_self_test"] = {"corrupted_cases": 5, "expected": sorted(expect), "flagged": sorted(got)}
     if not expect <= got:
         raise vlib.ToolError("binding self-test: corrupted trace not rejected (expected %s, got %s)" % (expect, got))
     ctx.log("binding self-test: corrupted records rejected with %s" % sorted(got))
 
 
 def replay(ctx):
+    case = ctx.replay.get("case") or {}
+    prof = case.get("profile") or "release"
+    if case.get("ev") == "hcase":
+        # a crafted header: rebuild the same file from the logged numbers
+        hdrs = ctx.path("headers.jsonl")
+        d = {"idx": case["idx"], "fmt": case["fmt"], "isz": case["isz"], "dims": case["dims"], "avail": case["avail"],
+             "hlen": {"kind": "abs" if case["fmt"] == "safetensors" else "actual", "v": case["hlen"]},
+             "begin": case["begin"], "end": case["end"]}
+        with open(hdrs, "w") as f:
+            f.write(json.dumps(d) + "\n")
+        ht = ctx.path("headers_%s.ndjson" % prof)
+        ctx.harness("vh-misc", ["serialize-hdr", "--headers", hdrs, "--out", ht], profile=prof)
+        res = ctx.tlc_trace(SPEC_T, CFG_T, ht)
+        return finish(ctx, [], [ht], res["bad"], res["stats"], 1)
     # the failing read is identified by its case index: re-run that single case
-    idx = (ctx.replay.get("case") or {}).get("idx")
+    idx = case.get("idx")
     if idx is None:
         raise vlib.ToolError("replay file has no case index")
-    trace = ctx.path("serialize.ndjson")
-    ctx.harness("vh-misc", ["serialize", "--first", idx, "--cases", 1, "--corrupt", 8 if ctx.quick else 10, "--out", trace])
+    trace = ctx.path("serialize_%s.ndjson" % prof)
+    ctx.harness("vh-misc", ["serialize", "--first", idx, "--cases", 1, "--corrupt", 8 if ctx.quick else 10, "--out", trace],
+                profile=prof)
     res = ctx.tlc_trace(SPEC_T, CFG_T, trace)
-    finish(ctx, trace, res["bad"], res["stats"])
+    finish(ctx, [trace], [], res["bad"], res["stats"], 0)
